@@ -132,7 +132,9 @@ def coord_value(special=True):
 def labels(mol2_safe=False):
     if mol2_safe:
         return st.one_of(st.none(), st.just(""), st.text("ABCDEFGHIJKLMNOPQRSTUVWXYZabcxyz0123456789_*'+-#@<>.,:;!?()[]{}/\\|=%&$~^\"", min_size=1, max_size=6),
-                         st.sampled_from(["H#1", "#", "C@", "@<TRIPOS>ATOM", "1", "0.5", "nan"]))
+                         st.sampled_from(["H#1", "#", "C@", "@<TRIPOS>ATOM", "1", "0.5", "nan",
+                                          # tokens that mean something elsewhere in the format
+                                          "****", "***", "<0>", "<1>", "SMALL", "NO_CHARGES", "USER_CHARGES", "Du", "LP", "Any", "@<TRIPOS>BOND", "None"]))
     return st.one_of(st.none(), st.just(""), st.text(max_size=6), st.sampled_from(["C1", "H 2", "α"]))
 
 
